@@ -39,7 +39,8 @@ def join_parts(parts):
 
 class TopGen:
     """Whole files: scripts with inline texts / moves, texts, movements, marts, mapscripts, raw."""
-    def __init__(self, rnd, tier="quick"):
+    def __init__(self, rnd, tier="quick", clash=False, porywrap=False, plain=False):
+        self.clash = clash; self.porywrap = porywrap; self.expect_clash = None; self.plain = plain; self.srcs = []
         self.r = rnd; self.n = 0; self.textcmds = []   # (owner, cmdname, content, typ) in source order
         self.movecmds = []                               # (owner, cmdname, steps)
         self.items = []                                  # (kind, name, scope, payload)
@@ -62,6 +63,8 @@ class TopGen:
                     self.textcmds.append((owner, name, terminated(content, typ), typ))
                 else:
                     steps = [r.choice(["walk_up", "walk_down", "face_left"]) for _ in range(r.randint(0, 3))]
+                    if r.random() < 0.2:      # step names ending in digits, runs that spell another step's name
+                        steps = r.choice([["delay_1"] * 6, ["delay_16"], ["delay_1"] * 2, ["delay_12"], ["delay_1", "delay_16"], ["walk_up", "delay_1", "delay_1"]])
                     # near-duplicates of earlier lists: same list, or last step repeated once more / once less
                     if self.movecmds and r.random() < 0.5:
                         base = list(r.choice(self.movecmds)[2]); x = r.random()
@@ -111,7 +114,12 @@ class TopGen:
         name = name or self.fresh("Script")
         g = G(r, maxdepth=2 if self.tier == "quick" else 3, prefix=name + "_", scoped_labels=True)
         body = g.body()
-        self.decorate(body, name)
+        if r.random() < 0.2:
+            # a body that ends in a loop left by break: the break returns from the script
+            lp = rnd_loop = ("while", g.cond(0, 1), [g.cmd(), ("if", [(g.cond(0, 1), [("break",)])], None)])
+            if r.random() < 0.5: lp = ("do", [g.cmd(), ("if", [(g.cond(0, 1), [("break",)])], None)], g.cond(0, 1))
+            body.append(lp)
+        if not self.plain: self.decorate(body, name)
         return name, scope, body, g.labels
     def gen(self, ntop=None):
         r = self.r; src = []
@@ -120,8 +128,12 @@ class TopGen:
             if x < 0.45:
                 name, _, body, labels = self.script()
                 self.items.append(("script", name, scope, (body, labels)))
-                src.append("script%s %s {\n%s}\n" % (sc, name, p_block(body, 1)))
-            elif x < 0.6:
+                inner = p_block(body, 1); w = r.random() if self.porywrap else 1.0
+                # a statement-level poryswitch splices the selected case into the block (switch V=ZZ)
+                if w < 0.2: inner = "  poryswitch(V) { A { other(\"never\") } _ {\n%s  } }\n" % inner
+                elif w < 0.3: inner = "  poryswitch(V) { _: skip ZZ {\n%s  } }\n" % inner
+                src.append("script%s %s {\n%s}\n" % (sc, name, inner))
+            elif x < 0.6 and not self.plain:
                 name = self.fresh("Text"); typ = r.choice(TEXT_TYPES); content = gen_content(r)
                 self.items.append(("text", name, scope, (terminated(content, typ), typ)))
                 src.append("text%s %s {\n  %s\n}\n" % (sc, name, string_lit(r, content, typ)))
@@ -158,11 +170,41 @@ class TopGen:
                 self.n += 1
                 txt = r.choice(["Raw_%d:\n\tnop\n\tend" % self.n, "@ just a comment", "RawData_%d:\n\t.byte 1" % self.n])
                 self.items.append(("raw", None, None, txt)); src.append("raw `\n%s\n`\n" % txt)
+        if self.clash and r.random() < 0.2:
+            # a user-defined text / movement named like a generated label, before or after its script,
+            # with other or with the very same content: always a compile error
+            tl, ml = self.generated_labels()
+            cands = [("text", l, c, t) for l, (c, t) in tl.items()] + [("movement", l, st, None) for l, st in ml.items()]
+            if cands:
+                kind, lab, payload, typ = r.choice(cands)
+                if kind == "text":
+                    content = payload if r.random() < 0.4 else "clash"
+                    stmt = "text%s %s {\n  %s\n}\n" % (r.choice(["", "(global)", "(local)"]), lab, string_lit(r, content, typ if r.random() < 0.7 else ""))
+                else:
+                    steps = list(payload) if r.random() < 0.4 else ["walk_up"]
+                    stmt = "movement %s {\n  %s\n}\n" % (lab, " ".join(steps))
+                src.insert(r.randrange(len(src) + 1), stmt); self.expect_clash = lab
+        self.srcs = src
         return "\n".join(src)
+    def generated_labels(self):
+        """The hoisted labels this file must produce: label -> (content, type) / label -> steps."""
+        counts = {}; assigned = {}; tl = {}
+        for owner, name, content, typ in self.textcmds:
+            if (content, typ) in assigned: continue
+            lab = "%s_Text_%d" % (owner, counts.get(owner, 0)); counts[owner] = counts.get(owner, 0) + 1
+            assigned[(content, typ)] = lab; tl[lab] = (content, typ)
+        mcounts = {}; massigned = {}; ml = {}
+        for owner, name, steps in self.movecmds:
+            if tuple(steps) in massigned: continue
+            lab = "%s_Movement_%d" % (owner, mcounts.get(owner, 0)); mcounts[owner] = mcounts.get(owner, 0) + 1
+            massigned[tuple(steps)] = lab; ml[lab] = steps
+        return tl, ml
 
-def top_case(rnd, tier, cfgkw=None, ntop=None):
-    tg = TopGen(rnd, tier); src = tg.gen(ntop)
-    cfg = base_cfg(**(cfgkw or {}))
+def top_case(rnd, tier, cfgkw=None, ntop=None, clash=False, porywrap=False):
+    tg = TopGen(rnd, tier, clash=clash, porywrap=porywrap); src = tg.gen(ntop)
+    cfgkw = dict(cfgkw or {})
+    if porywrap: cfgkw["switches"] = {"V": "ZZ"}
+    cfg = base_cfg(**cfgkw)
     return Case(compile_line(cfg, src), src, cfg, {"top": tg})
 
 # ---------------- C04 ----------------
@@ -275,7 +317,7 @@ def runoff(text, tg):
 def gen_C06(rnd, n, tier):
     out = []
     for _ in range(n):
-        c = top_case(rnd, tier, {"optimize": rnd.random() < 0.5}, ntop=rnd.randint(2, 5))
+        c = top_case(rnd, tier, {"optimize": rnd.random() < 0.5}, ntop=rnd.randint(2, 5), clash=True, porywrap=True)
         out.append(c)
     return out
 
@@ -290,12 +332,20 @@ def text_blocks(text):
         m = re.match(r'^\t\.(\w+) "(.*)"$', ln)
         if m and cur is not None and m.group(1) not in ("byte", "2byte", "align"):
             texts.setdefault(cur, []).append((m.group(1), m.group(2))); continue
-        if cur is not None and re.match(r"^\t(walk_\w+|face_\w+|step_end)$", ln):
+        if cur is not None and re.match(r"^\t(walk_\w+|face_\w+|delay_\d+|step_end)$", ln):
             moves.setdefault(cur, []).append(ln.strip()); continue
         if not ln.strip(): cur = None
     return texts, moves
 
+def clash_verdict(case, res):
+    tg = case.meta["top"]
+    if tg.expect_clash is not None and res["kind"] == "OK":
+        return "user-defined name %s equals a generated label, but the program was accepted" % tg.expect_clash
+    return None
+
 def oracle_C06(case, res):
+    e = clash_verdict(case, res)
+    if e: return e
     if res["kind"] != "OK": return None
     text = res["text"]; tg = case.meta["top"]
     texts, moves = text_blocks(text)
@@ -406,8 +456,15 @@ def gen_C09(rnd, n, tier):
             if len(value) > 0: value += "\n"
             value += v
         lit = typ + rnd.choice([" ", "\n  ", "  "]).join(srcparts)
-        origin = rnd.choice(["stmt", "inline", "pory", "pory_", "pair"])
-        if origin == "pair":
+        origin = rnd.choice(["stmt", "inline", "pory", "pory_", "pair", "format", "format"])
+        cfg = base_cfg(switches={"V": "A"})
+        if origin == "format" and (nparts != 1 or "\\" in parts[0] or srcparts[0] != '"%s"' % parts[0]): origin = "stmt"
+        if origin == "format":
+            # format() of a text that fits on one line leaves it alone; the terminator is still the type's
+            cfg = base_cfg(switches={"V": "A"}, fontdefault="F1", fonts={"F1": {"maxLineLength": 100000, "numLines": 2, "cursorOverlapWidth": 0, "widths": {"default": 1}}})
+            if rnd.random() < 0.5: src = "text T {\n  format(%s)\n}\n" % lit; label = "T"
+            else: src = "script S {\n  msgbox(format(%s))\n}\n" % lit; label = "S_Text_0"
+        elif origin == "pair":
             # the same content under another string type earlier in the file must not capture this text
             other = rnd.choice([t for t in ["", "ascii", "braille", "custom"] if t != typ])
             olit = other + " ".join(srcparts)
@@ -418,7 +475,6 @@ def gen_C09(rnd, n, tier):
         elif origin == "inline": src = "script S {\n  msgbox(%s)\n}\n" % lit; label = "S_Text_0"
         elif origin == "pory": src = "text T {\n  poryswitch(V) { A: %s _: \"other\" }\n}\n" % lit; label = "T"
         else: src = "text T {\n  poryswitch(V) { Q: \"other\" _ { %s } }\n}\n" % lit; label = "T"
-        cfg = base_cfg(switches={"V": "A"})
         out.append(Case(compile_line(cfg, src), src, cfg, {"value": terminated(value, typ), "typ": typ, "label": label, "origin": origin}))
     return out
 
@@ -432,13 +488,13 @@ def oracle_C09(case, res):
     return None
 
 # ---------------- C10 ----------------
-ARG_ATOMS = ["VAR_A", "7", "-3", "0x1F", "FLAG_X", "+", "|", "TRUE", "var", "if", "*", "=", "<=", "[", "]", "{", "}", ":", "!"]
+ARG_ATOMS = ["VAR_A", "7", "-3", "0x1F", "FLAG_X", "+", "|", "TRUE", "var", "if", "*", "=", "0x1f", "0xdeadBEEF", "0xa", "VAR_0x8004", "<=", "[", "]", "{", "}", ":", "!"]
 def gen_arg(rnd, depth=0):
     n = rnd.randint(1, 3); toks = []
     for _ in range(n):
         if depth < 2 and rnd.random() < 0.2:
             inner = gen_arg(rnd, depth + 1); toks += ["("] + inner + [")"]
-        else: toks.append(rnd.choice(ARG_ATOMS[:12] if depth == 0 or True else ARG_ATOMS))
+        else: toks.append(rnd.choice(ARG_ATOMS[:16]))
     return toks
 
 def gen_C10(rnd, n, tier):
@@ -489,11 +545,27 @@ def gen_C10(rnd, n, tier):
         elif wrap < 0.25: body = "poryswitch(V) { _: skip ZZ {\n  %s\n  } }" % body
         src = pre + "script S {\n  " + body + "\n}\n"
         out.append(Case(compile_line(cfg, src), src, cfg, {"want": want, "texts": texts}))
+        if i % 5 == 0 and len(stmts) >= 2 and not texts:
+            # the same commands spread around jumps: every one of them is emitted exactly once, also
+            # the ones written after a break / continue-free jump or behind a label
+            k = rnd.randint(1, len(stmts) - 1); a, b = stmts[:k], stmts[k:]
+            shape = rnd.choice(["break", "switchbreak", "goto", "ifelse"])
+            if shape == "break": body2 = "while (flag(F)) {\n  %s\n  break\n  %s\n}" % (a[0], "\n  ".join(a[1:] + b[:1])) + "\n  " + "\n  ".join(b[1:])
+            elif shape == "switchbreak": body2 = "switch (var(VX)) {\n case 1:\n  %s\n  break\n  %s\n Lbl:\n  %s\n}" % ("\n  ".join(a), b[0], "\n  ".join(b[1:]))
+            elif shape == "goto": body2 = "%s\n  goto(Lbl)\n  %s\n Lbl:\n  %s" % ("\n  ".join(a), b[0], "\n  ".join(b[1:]))
+            else: body2 = "if (flag(F)) {\n  %s\n  end\n  %s\n} else {\n  %s\n}" % ("\n  ".join(a), b[0], "\n  ".join(b[1:]))
+            src2 = pre + "script S {\n  " + body2 + "\n}\n"
+            out.append(Case(compile_line(cfg, src2), src2, cfg, {"want": want, "texts": [], "scattered": shape}))
     return out
 
 def oracle_C10(case, res):
     if res["kind"] != "OK": return "valid commands rejected: %s" % res.get("msg")
     lines = res["text"].split("\n")
+    if "scattered" in case.meta:
+        for w in set(case.meta["want"]):
+            if lines.count(w) != case.meta["want"].count(w):
+                return "command line %r occurs %d times in the output, %d times in the source" % (w, lines.count(w), case.meta["want"].count(w))
+        return None
     want = ["S::"] + case.meta["want"] + ["\treturn", ""]
     if lines[:len(want)] != want: return "commands emitted as %r, expected %r" % (lines[:len(want)], want)
     texts, _ = text_blocks(res["text"])
@@ -505,6 +577,33 @@ def oracle_C10(case, res):
 def gen_C14(rnd, n, tier):
     out = []
     for i in range(n):
+        if i % 8 == 3:
+            # several moves() operands in one file, step names ending in digits, runs written with and
+            # without a multiplier: every command gets a block holding exactly its own steps
+            lists = []; cmds = []
+            for k in range(rnd.randint(2, 4)):
+                base = rnd.choice(["delay_1", "delay_16", "delay_11", "walk_up", "d", "d2"])
+                steps = []; src = []
+                for _ in range(rnd.randint(1, 3)):
+                    nm = rnd.choice([base, base, "delay_1", "delay_16", "d"]); cnt = rnd.choice([1, 1, 2, 6, 11, 16])
+                    if cnt > 1 and rnd.random() < 0.7: src.append("%s * %d" % (nm, cnt))
+                    else: src += [nm] * cnt
+                    steps += [nm] * cnt
+                lists.append(steps); cmds.append("applymovement(%d, moves(%s))" % (k, " ".join(src)))
+            if rnd.random() < 0.6:
+                # a run whose name and count spell the name of another step, in otherwise equal lists
+                nm = rnd.choice(["delay_1", "d", "walk_1"]); cnt = rnd.choice([2, 6, 16]); pre_ = rnd.choice([[], ["walk_up"], ["d"] * 2]); post = rnd.choice([[], ["face_left"]])
+                la = pre_ + [nm] * cnt + post; lb = pre_ + ["%s%d" % (nm, cnt)] + post
+                pr = lambda l: " ".join(l)
+                sa = pr(pre_) + " %s * %d " % (nm, cnt) + pr(post)
+                pair = [(la, sa), (lb, pr(lb))]
+                if rnd.random() < 0.5: pair.reverse()
+                for l, sr in pair:
+                    cmds.append("applymovement(%d, moves(%s))" % (len(lists), sr)); lists.append(l)
+            s = "script S {\n  %s\n}\n" % "\n  ".join(cmds)
+            cfg = base_cfg(switches={"V": "A"})
+            out.append(Case(compile_line(cfg, s), s, cfg, {"kind": "moves2", "lists": lists, "err": None}))
+            continue
         if rnd.random() < 0.6:
             steps = []; src = []; err = None
             for _ in range(rnd.randint(0, 6)):
@@ -560,6 +659,18 @@ def oracle_C14(case, res):
         return None
     if res["kind"] != "OK": return "valid list rejected: %s" % res.get("msg")
     lines = res["text"].split("\n")
+    if m["kind"] == "moves2":
+        seen = {}
+        for k, steps in enumerate(m["lists"]):
+            refs = [l for l in lines if l.startswith("\tapplymovement %d, " % k)]
+            if len(refs) != 1: return "command %d emitted %d times" % (k, len(refs))
+            lab = refs[0].split(", ")[1]
+            if (lab + ":") not in lines: return "movement label %s not defined" % lab
+            i = lines.index(lab + ":") + 1; got = []
+            while i < len(lines) and lines[i].startswith("\t"): got.append(lines[i][1:]); i += 1
+            if got != steps + ["step_end"]: return "moves() of command %d emitted as %r, expected %r" % (k, got, steps + ["step_end"])
+            if seen.setdefault(lab, steps) != steps: return "different step lists share %s" % lab
+        return None
     if m["kind"] == "movement":
         i = lines.index(m["label"] + ":") + 1; got = []
         while i < len(lines) and lines[i].startswith("\t"): got.append(lines[i][1:]); i += 1
@@ -575,9 +686,11 @@ def oracle_C14(case, res):
 # ---------------- C15 ----------------
 DEFAULT_GLOBAL = {"script": True, "text": True, "mapscripts": True, "movement": False, "mart": False}
 def gen_C15(rnd, n, tier):
-    return [top_case(rnd, tier, {"optimize": rnd.random() < 0.5}, ntop=rnd.randint(2, 6)) for _ in range(n)]
+    return [top_case(rnd, tier, {"optimize": rnd.random() < 0.5}, ntop=rnd.randint(2, 6), clash=True) for _ in range(n)]
 
 def oracle_C15(case, res):
+    e = clash_verdict(case, res)      # an accepted clash would emit a name under the wrong scope
+    if e: return e
     if res["kind"] != "OK": return None
     tg = case.meta["top"]; text = res["text"]; colons = {}
     for ln in text.split("\n"):
@@ -738,8 +851,12 @@ def gen_C12(rnd, n, tier):
     out.append(Case(compile_line(cfg, F18_SEL), F18_SEL, cfg, {"role": "selected", "sw": "SAPPHIRE"}, group="F18"))
     for i in range(n):
         p = Pory(rnd); src_w, tops_s = p.program()
+        # constants named like case labels or like the switch value: they never take part in case selection
+        pre = rnd.choice(["", "", "const A = 1\nconst B = ZZ\n", "const ZZ = A\nconst C9 = B\n", "const V = B\n"])
+        src_w = pre + src_w
         for sw in ["A", "B", "ZZ"]:
             sel = [f(sw) for f in tops_s]
+            if pre and not any(x is None for x in sel): sel = [pre.rstrip("\n")] + sel
             cfg = repo_cfg(switches={"V": sw}, optimize=True)
             a = Case(compile_line(cfg, src_w), src_w, cfg, {"role": "with", "sw": sw, "unmatched": any(x is None for x in sel)}, group=(i, sw))
             out.append(a)
@@ -787,6 +904,9 @@ def gen_C13(rnd, n, tier):
             lambda: "if (random(%s) == %s) { r }" % (u(), u()),
             lambda: "applymovement(%s, moves(walk_up))" % u(),
             lambda: "foo((%s + 2) * %s)" % (u(), u()),
+            # case values that coincide only after expansion: rejected with or without constants
+            (lambda: (lambda k: "switch (var(VZ)) { case %s: x case 77: y case %s: z }" % (k, " ".join(defs[k])))(u())),
+            (lambda: (lambda k: "switch (var(VZ)) { case %s: x case %s: z }" % (" ".join(defs[k]), k))(u())),
         ]
         stmts = [rnd.choice(tmpl)() for _ in range(rnd.randint(1, 5))]
         tops = ["script S { %s }" % " ".join(stmts)]
@@ -816,6 +936,7 @@ def oracle_C13_group(cases, results):
     if "const" in roles:
         a = roles["const"][1]; b = roles["expanded"][1]
         if b["kind"] == "OK" and a != b: return "program with constants and its hand-expanded form compile differently"
+        if b["kind"] == "PERR" and a["kind"] == "OK": return "the hand-expanded form is rejected (%s) but the program with constants is accepted" % b.get("msg")
     if "nonsite" in roles:
         c, r = roles["nonsite"]; k = c.meta["k"]
         if r["kind"] != "OK": return "non-site program rejected: %s" % r.get("msg")
